@@ -134,6 +134,10 @@ func (g *sgen) page(id string, n int) J {
 	for j := 0; j < n; j++ {
 		k := g.r.intn(n/2 + 2)
 		iid := remote(fmt.Sprintf("/activities/%d", k))
+		if k%3 == 2 {
+			// ids with a userinfo part: equal ids are equal texts, however often they were parsed
+			iid = fmt.Sprintf("https://bob@%s/activities/%d", hostB, k)
+		}
 		if g.r.chance(30) {
 			items = append(items, J{"type": g.r.pick([]string{"Create", "Like", "Announce"}), "id": iid, "actor": bob})
 		} else {
